@@ -226,7 +226,11 @@ func (g *gen) opExpr(d int) string {
 	case 7:
 		return l + " ? " + r + " : " + g.operand(d)
 	default:
-		return "-" + g.operand(d)
+		p := g.pick("-", "-", "--", "- -", "-(-", "---")
+		if p == "-(-" {
+			return p + g.operand(d) + ")"
+		}
+		return p + g.operand(d)
 	}
 }
 
